@@ -24,10 +24,18 @@ type srcVal struct {
 	Text string `json:"text"`
 }
 
-var srcIntKinds = []string{"int", "int8", "int16", "int32", "int64", "uint", "uint8", "uint16", "uint32", "uint64"}
+// named-*: Go types declared over an integer kind (type Level int16, time.Duration, type Counter uint64): callers pass
+// them as they pass the built-in kinds
+var srcIntKinds = []string{"int", "int8", "int16", "int32", "int64", "uint", "uint8", "uint16", "uint32", "uint64", "named-int16", "named-int64", "named-uint8", "named-uint64"}
+
+type namedI16 int16
+type namedU8 uint8
+type namedU64 uint64
+type namedI64 int64 // (not time.Duration: its String method makes what text it denotes a matter of taste)
 var srcKinds = append(append([]string{}, srcIntKinds...), "float32", "float64", "string", "bool")
 
 func kindRange(kind string) (min, max *big.Int) {
+	kind = strings.TrimPrefix(kind, "named-")
 	switch kind {
 	case "int", "int64":
 		return bi("-9223372036854775808"), bi("9223372036854775807")
@@ -81,6 +89,14 @@ func (s srcVal) goValue() (interface{}, bool) {
 		return uint32(b.Uint64()), true
 	case "uint64":
 		return b.Uint64(), true
+	case "named-int16":
+		return namedI16(b.Int64()), true
+	case "named-int64":
+		return namedI64(b.Int64()), true
+	case "named-uint8":
+		return namedU8(b.Uint64()), true
+	case "named-uint64":
+		return namedU64(b.Uint64()), true
 	}
 	return nil, false
 }
